@@ -573,6 +573,7 @@ type scenParams struct {
 	hdrPrev   bool
 	start     uint64
 	viaStatus bool // set local statuses through UpdateCertificateStatus instead of saving them directly
+	reopened  bool // idle: the local record says InError while the Agglayer has taken the same certificate up again (or settled it)
 }
 
 // scenario builds one case from a protocol state satisfying the invariant of the model (Inv in Model/Reconcile.v).
@@ -647,6 +648,9 @@ func scenario(rng *hlib.Rng, p scenParams) In {
 	switch p.step {
 	case "idle":
 		local := lagging(rng, x)
+		if p.reopened {
+			local = stInError
+		}
 		save(cur, local)
 		in.Ideal = cur.row(local)
 	case "first": // H = 0, nothing stored before
@@ -718,6 +722,14 @@ func genScenarios(rng *hlib.Rng, n int, thorough bool) []In {
 					}
 				}
 			}
+		}
+	}
+	// a certificate recorded InError locally that the Agglayer has taken up again: the record must follow the Agglayer, and no
+	// replacement may be built while the certificate is undecided
+	for H := 0; H <= 2; H++ {
+		for _, class := range []string{"pending", "proven", "candidate", "settled"} {
+			ins = append(ins, scenario(rng, scenParams{H: H, class: class, step: "idle", cp: "before_submit", metaV: 2, localHist: H%2 == 0,
+				keep: rng.Bool(), hdrPrev: true, start: hlib.Pick(rng, uint64(0), 5), viaStatus: rng.Bool(), reopened: true}))
 		}
 	}
 	for _, cp := range []string{"before_submit", "db_lost"} {
